@@ -204,3 +204,283 @@ theorem dropNl_append_nl (l : List Char) : Listing.dropNl (l ++ ['\n']) = l := b
   simp [Listing.dropNl]
 
 end YashModel.Quote
+
+/-! ## `name=value` words: triggers across the two separately quoted halves -/
+namespace YashModel.Quote
+open YashModel.Generated.QuoteTables
+
+/-- the word has an unquoted `[` -/
+def hasLitOpen (w : List WUnit) : Bool := w.any fun u => u = .lit '['
+
+/-- name and value are both printed bare, the name has a `[` and the value a `]`: the printed word
+    `name=value` is then a bracket pattern (the one case in which gluing the two quoted halves goes wrong) -/
+def crossBracket (n v : List Char) : Bool :=
+  (!strNeedsQuoting n && n.contains '[') && (!strNeedsQuoting v && v.contains ']')
+
+theorem triggers_unitsOf (s : List Char) :
+    tildeTriggered (unitsOf s) = false ∧ globTriggered (unitsOf s) = false := by
+  have h := fieldOf_unitsOf s
+  unfold fieldOf at h
+  by_cases hc : (tildeTriggered (unitsOf s) || globTriggered (unitsOf s)) = true
+  · simp [hc] at h
+  · have : (tildeTriggered (unitsOf s) || globTriggered (unitsOf s)) = false := by simpa using hc
+    simpa [Bool.or_eq_false_iff] using this
+
+theorem hasLitOpen_lits (s : List Char) : hasLitOpen (s.map WUnit.lit) = s.contains '[' := by
+  induction s with
+  | nil => rfl
+  | cons c cs ih =>
+    simp only [hasLitOpen, List.map_cons, List.any_cons] at ih ⊢
+    rw [ih]
+    by_cases h : c = '[' <;> simp [h, eq_comm]
+
+theorem hasLitOpen_unitsOf (s : List Char) :
+    hasLitOpen (unitsOf s) = (!strNeedsQuoting s && s.contains '[') := by
+  rcases shapes s with ⟨hn, _, hu⟩ | ⟨hn, _, _, hu⟩ | ⟨hn, _, hu⟩
+  · rw [hu, hasLitOpen_lits, hn]; simp
+  · rw [hu, hn]; simp [hasLitOpen]
+  · rw [hu, hn]; simp [hasLitOpen]
+
+theorem hasLitClose_unitsOf (s : List Char) :
+    hasLitClose (unitsOf s) = (!strNeedsQuoting s && s.contains ']') := by
+  rcases shapes s with ⟨hn, _, hu⟩ | ⟨hn, _, _, hu⟩ | ⟨hn, _, hu⟩
+  · rw [hu, hasLitClose_lits, hn]; simp
+  · rw [hu, hn]; simp [hasLitClose]
+  · rw [hu, hn]; simp [hasLitClose]
+
+theorem hasLitClose_append (a b : List WUnit) : hasLitClose (a ++ b) = (hasLitClose a || hasLitClose b) := by
+  simp [hasLitClose]
+
+/-- no bracket pattern arises in `a ++ b` unless one half already has one or `[` is in `a` and `]` in `b` -/
+theorem bracketTriggered_append_false (a b : List WUnit)
+    (ha : bracketTriggered a = false) (hb : bracketTriggered b = false)
+    (hx : hasLitOpen a = false ∨ hasLitClose b = false) : bracketTriggered (a ++ b) = false := by
+  induction a with
+  | nil => simpa using hb
+  | cons u t ih =>
+    simp only [bracketTriggered, Bool.or_eq_false_iff] at ha
+    simp only [List.cons_append, bracketTriggered, hasLitClose_append, Bool.or_eq_false_iff]
+    rcases hx with hx | hx
+    · simp only [hasLitOpen, List.any_cons, Bool.or_eq_false_iff] at hx
+      have hu : decide (u = WUnit.lit '[') = false := hx.1
+      exact ⟨by simp [hu], ih ha.2 (Or.inl (by simpa [hasLitOpen] using hx.2))⟩
+    · refine ⟨?_, ih ha.2 (Or.inr hx)⟩
+      rw [hx, Bool.or_false]
+      exact ha.1
+
+/-- and conversely `[` in `a`, `]` in `b` always makes one -/
+theorem bracketTriggered_append_true (a b : List WUnit)
+    (ho : hasLitOpen a = true) (hc : hasLitClose b = true) : bracketTriggered (a ++ b) = true := by
+  induction a with
+  | nil => simp [hasLitOpen] at ho
+  | cons u t ih =>
+    simp only [hasLitOpen, List.any_cons, Bool.or_eq_true] at ho
+    simp only [List.cons_append, bracketTriggered, hasLitClose_append, Bool.or_eq_true]
+    rcases ho with ho | ho
+    · left; simp [ho, hc]
+    · right; exact ih (by simpa [hasLitOpen] using ho)
+
+theorem tildeAt_unitsOf_append (n : List Char) (b : List WUnit) : tildeAt (unitsOf n ++ b) = false := by
+  rcases shapes n with ⟨hn, _, hu⟩ | ⟨_, _, _, hu⟩ | ⟨_, _, hu⟩
+  · have hb := bare_of_not_needs hn
+    rw [hu]
+    cases n with
+    | nil => exact absurd rfl hb.nonempty
+    | cons c cs =>
+      have hc : c ≠ '~' := by
+        intro h
+        have hm : c ∈ firstCharArms := first_arms c (by simp [h])
+        have := hb.first
+        simp [firstCharNeeds] at this
+        exact this hm
+      simp [tildeAt, hc]
+  · rw [hu]; simp [tildeAt]
+  · rw [hu]; simp [tildeAt]
+
+/-- colons inside a bare run never start a tilde expansion, whatever follows the run, as long as what
+    follows does not itself begin with one -/
+theorem tildeAfterColon_lits_append (s : List Char) (b : List WUnit)
+    (h : hasInfix [':', '~'] s = false) (hb : tildeAt b = false) :
+    tildeAfterColon (s.map WUnit.lit ++ b) = tildeAfterColon b := by
+  induction s with
+  | nil => rfl
+  | cons c cs ih =>
+    simp only [hasInfix, Bool.or_eq_false_iff] at h
+    simp only [List.map_cons, List.cons_append, tildeAfterColon]
+    rw [ih h.2]
+    have : (decide (WUnit.lit c = WUnit.lit ':') && tildeAt (cs.map WUnit.lit ++ b)) = false := by
+      cases cs with
+      | nil => simp [hb]
+      | cons d ds =>
+        by_cases h1 : c = ':'
+        · by_cases h2 : d = '~'
+          · have := h.1
+            simp [h1, h2, List.isPrefixOf] at this
+          · simp [tildeAt, h2]
+        · simp [h1]
+    rw [this, Bool.false_or]
+
+theorem tildeAfterColon_unitsOf_append (n : List Char) (b : List WUnit) (hb : tildeAt b = false) :
+    tildeAfterColon (unitsOf n ++ b) = tildeAfterColon b := by
+  rcases shapes n with ⟨hn, _, hu⟩ | ⟨_, _, _, hu⟩ | ⟨_, _, hu⟩
+  · rw [hu]; exact tildeAfterColon_lits_append n b (bare_of_not_needs hn).noColonTilde hb
+  · rw [hu]; simp [tildeAfterColon]
+  · rw [hu]; simp [tildeAfterColon]
+
+/-- the units of `=value` -/
+theorem eq_value_facts (v : List Char) :
+    tildeAt (WUnit.lit '=' :: unitsOf v) = false
+    ∧ tildeAfterColon (WUnit.lit '=' :: unitsOf v) = false
+    ∧ bracketTriggered (WUnit.lit '=' :: unitsOf v) = false
+    ∧ hasLitClose (WUnit.lit '=' :: unitsOf v) = hasLitClose (unitsOf v) := by
+  have ht := triggers_unitsOf v
+  simp only [tildeTriggered, globTriggered, Bool.or_eq_false_iff] at ht
+  refine ⟨by simp [tildeAt], ?_, ?_, by simp [hasLitClose]⟩
+  · simp [tildeAfterColon, ht.1.2]
+  · simp [bracketTriggered, ht.2.2]
+
+theorem star_append (a b : List WUnit) :
+    (a ++ b).any (fun u => decide (u = WUnit.lit '*') || decide (u = WUnit.lit '?'))
+      = (a.any (fun u => decide (u = WUnit.lit '*') || decide (u = WUnit.lit '?'))
+         || b.any (fun u => decide (u = WUnit.lit '*') || decide (u = WUnit.lit '?'))) := by
+  simp
+
+/-- ★ the field of the printed word `name=value`, unless it is a cross-bracket pattern -/
+theorem fieldOf_assign (n v : List Char) (h : crossBracket n v = false) :
+    fieldOf (unitsOf n ++ WUnit.lit '=' :: unitsOf v) = some (n ++ '=' :: v) := by
+  have hn := triggers_unitsOf n
+  have hv := triggers_unitsOf v
+  have he := eq_value_facts v
+  simp only [tildeTriggered, globTriggered, Bool.or_eq_false_iff] at hn hv
+  have h1 : tildeAt (unitsOf n ++ WUnit.lit '=' :: unitsOf v) = false := tildeAt_unitsOf_append n _
+  have h2 : tildeAfterColon (unitsOf n ++ WUnit.lit '=' :: unitsOf v) = false := by
+    rw [tildeAfterColon_unitsOf_append n _ he.1]; exact he.2.1
+  have h3 : (unitsOf n ++ WUnit.lit '=' :: unitsOf v).any
+      (fun u => decide (u = WUnit.lit '*') || decide (u = WUnit.lit '?')) = false := by
+    rw [star_append, hn.2.1]
+    simp only [List.any_cons, hv.2.1]
+    simp
+  have h4 : bracketTriggered (unitsOf n ++ WUnit.lit '=' :: unitsOf v) = false := by
+    apply bracketTriggered_append_false _ _ hn.2.2 he.2.2.1
+    rw [he.2.2.2, hasLitOpen_unitsOf, hasLitClose_unitsOf]
+    unfold crossBracket at h
+    exact Bool.and_eq_false_iff.mp h
+  have h5 : removeQuotes (unitsOf n ++ WUnit.lit '=' :: unitsOf v) = n ++ '=' :: v := by
+    rw [removeQuotes_append]
+    have : removeQuotes (WUnit.lit '=' :: unitsOf v) = '=' :: removeQuotes (unitsOf v) := by
+      simp [removeQuotes, WUnit.chars]
+    rw [this, removeQuotes_unitsOf, removeQuotes_unitsOf]
+  simp [fieldOf, tildeTriggered, globTriggered, h1, h2, h3, h4, h5]
+
+theorem lex_assign (n v : List Char) :
+    lex (.word []) (quote n ++ '=' :: quote v) = some [unitsOf n ++ WUnit.lit '=' :: unitsOf v] := by
+  rw [lex_quote_append n [] _]
+  rw [lex_word_plain _ '=' _ not_special_eq (Or.inl (by decide))]
+  have := lex_quote_append v (WUnit.lit '=' :: ((unitsOf n).reverse ++ [])) []
+  simp only [List.append_nil] at this ⊢
+  rw [this, lex_word_nil]
+  simp
+
+theorem assignValue_lits (s : List Char) (r : List WUnit) :
+    ∀ seen : Bool, (seen = true ∨ s ≠ []) → '=' ∉ s →
+      assignValue (s.map WUnit.lit ++ WUnit.lit '=' :: r) seen = some r := by
+  induction s with
+  | nil =>
+    intro seen hs _
+    have : seen = true := by rcases hs with h | h; exact h; exact absurd rfl h
+    simp [assignValue, this]
+  | cons c cs ih =>
+    intro seen _ hne
+    have hc : c ≠ '=' := fun h => hne (by simp [h])
+    have hcs : '=' ∉ cs := fun h => hne (by simp [h])
+    simp only [List.map_cons, List.cons_append, assignValue]
+    rw [if_neg (by simp [hc])]
+    exact ih true (Or.inl rfl) hcs
+
+end YashModel.Quote
+
+/-! ## leading self-contained words -/
+namespace YashModel.Quote
+
+theorem assignValue_lits_none (s : List Char) (hne : '=' ∉ s) :
+    ∀ seen : Bool, assignValue (s.map WUnit.lit) seen = none := by
+  induction s with
+  | nil => intro seen; rfl
+  | cons c cs ih =>
+    intro seen
+    have hc : c ≠ '=' := fun h => hne (by simp [h])
+    simp only [List.map_cons, assignValue]
+    rw [if_neg (by simp [hc])]
+    exact ih (fun h => hne (by simp [h])) true
+
+theorem eq_needs_quoting : charNeedsQuoting '=' = true := by decide
+
+/-- a quoted string alone is never of the form `name=value` for a declaration utility -/
+theorem fieldOfDecl_unitsOf (s : List Char) : fieldOfDecl (unitsOf s) = some s := by
+  have hf := fieldOf_unitsOf s
+  rcases shapes s with ⟨hn, _, hu⟩ | ⟨_, _, _, hu⟩ | ⟨_, _, hu⟩
+  · have hne : '=' ∉ s := by
+      intro h
+      simp only [strNeedsQuoting, Bool.or_eq_false_iff] at hn
+      have := List.any_eq_false.mp hn.1.1.2 '=' h
+      simp [eq_needs_quoting] at this
+    rw [hu] at hf ⊢
+    simp only [fieldOfDecl, assignValue_lits_none s hne false]
+    exact hf
+  · rw [hu] at hf ⊢
+    simpa [fieldOfDecl, assignValue] using hf
+  · rw [hu] at hf ⊢
+    simpa [fieldOfDecl, assignValue] using hf
+
+theorem lex_cons_word (a t : List Char) :
+    lex (.word []) (quote a ++ ' ' :: t) = (lex (.word []) t).map fun ws => unitsOf a :: ws := by
+  rw [lex_quote_append a [] _]
+  have hne : (unitsOf a).reverse ++ [] ≠ [] := by simpa using unitsOf_ne_nil a
+  rw [lex_word_space _ _ hne]
+  simp
+
+/-- a quoted word and a blank in front of argument text add exactly that one field -/
+theorem readBack_cons_word (a t : List Char) :
+    readBack (quote a ++ ' ' :: t) = (readBack t).map fun fs => a :: fs := by
+  simp only [readBack, lex_cons_word]
+  cases lex (.word []) t with
+  | none => rfl
+  | some ws =>
+    simp only [Option.map_some, Option.bind_some, List.mapM_cons, fieldOf_unitsOf]
+    cases List.mapM fieldOf ws <;> rfl
+
+theorem readBackDecl_cons_word (a t : List Char) :
+    readBackDecl (quote a ++ ' ' :: t) = (readBackDecl t).map fun fs => a :: fs := by
+  simp only [readBackDecl, lex_cons_word]
+  cases lex (.word []) t with
+  | none => rfl
+  | some ws =>
+    simp only [Option.map_some, Option.bind_some, List.mapM_cons, fieldOfDecl_unitsOf]
+    cases List.mapM fieldOfDecl ws <;> rfl
+
+/-- words followed by a blank each -/
+def prefixSp : List (List Char) → List Char
+  | [] => []
+  | w :: ws => w ++ ' ' :: prefixSp ws
+
+theorem readBack_prefix (ws : List (List Char)) (hq : ∀ w ∈ ws, quote w = w) (t : List Char) :
+    readBack (prefixSp ws ++ t) = (readBack t).map fun fs => ws ++ fs := by
+  induction ws with
+  | nil => simp [prefixSp]
+  | cons w r ih =>
+    have h1 : quote w = w := hq w (by simp)
+    simp only [prefixSp, List.append_assoc, List.cons_append]
+    rw [← h1, readBack_cons_word, h1, ih (fun x hx => hq x (by simp [hx]))]
+    cases readBack t <;> simp
+
+theorem readBackDecl_prefix (ws : List (List Char)) (hq : ∀ w ∈ ws, quote w = w) (t : List Char) :
+    readBackDecl (prefixSp ws ++ t) = (readBackDecl t).map fun fs => ws ++ fs := by
+  induction ws with
+  | nil => simp [prefixSp]
+  | cons w r ih =>
+    have h1 : quote w = w := hq w (by simp)
+    simp only [prefixSp, List.append_assoc, List.cons_append]
+    rw [← h1, readBackDecl_cons_word, h1, ih (fun x hx => hq x (by simp [hx]))]
+    cases readBackDecl t <;> simp
+
+end YashModel.Quote
